@@ -28,6 +28,18 @@ type kvJ struct {
 // cs emits a byte string compactly: Coq's parser costs ~60us per literal character, so
 // printable ASCII goes out as (bs "...") instead of hex.
 func cs(s string) string {
+	if len(s) > 48 { // a long run of one byte (padding values): Coq's string parser is recursive
+		same := true
+		for i := 1; i < len(s); i++ {
+			if s[i] != s[0] {
+				same = false
+				break
+			}
+		}
+		if same && s[0] >= 'A' && s[0] <= 'z' {
+			return fmt.Sprintf(`(rep "%c"%%byte %d%%N)`, s[0], len(s))
+		}
+	}
 	for i := 0; i < len(s); i++ {
 		if s[i] < 0x20 || s[i] > 0x7e || s[i] == '"' {
 			return hk.CoqStr(s)
@@ -357,4 +369,5 @@ func runC16(r *hk.Run) {
 	runDirectSort(r, rng.Fork())
 	runCanon(r, rng.Fork())
 	runE2E(r, rng.Fork())
+	runSequences(r, rng.Fork())
 }
